@@ -286,38 +286,44 @@ func newWorld() *world {
 
 // closed: every reference resolves.
 func (w *world) closed() (bool, string) {
+	ok, _, _, what := w.closedK()
+	return ok, what
+}
+
+// closedK additionally returns the kind of the first dangling reference and the referencing object.
+func (w *world) closedK() (ok bool, kind, from, what string) {
 	for k, refs := range w.pols {
 		for _, r := range refs {
 			if _, ok := w.ipsets[r]; !ok {
-				return false, "policy " + k + " -> ipset " + r
+				return false, "policy-ipset", k, "policy " + k + " -> ipset " + r
 			}
 		}
 	}
 	for k, refs := range w.profs {
 		for _, r := range refs {
 			if _, ok := w.ipsets[r]; !ok {
-				return false, "profile " + k + " -> ipset " + r
+				return false, "profile-ipset", k, "profile " + k + " -> ipset " + r
 			}
 		}
 	}
 	for k, e := range w.eps {
 		for _, p := range e.pols {
 			if _, ok := w.pols[p]; !ok {
-				return false, "endpoint " + k + " -> policy " + p
+				return false, "endpoint-policy", k, "endpoint " + k + " -> policy " + p
 			}
 		}
 		for _, p := range e.profs {
 			if _, ok := w.profs[p]; !ok {
-				return false, "endpoint " + k + " -> profile " + p
+				return false, "endpoint-profile", k, "endpoint " + k + " -> profile " + p
 			}
 		}
 	}
 	for k, r := range w.routes {
 		if r != "" && !w.vteps[r] {
-			return false, "route " + k + " -> vtep " + r
+			return false, "route-vtep", k, "route " + k + " -> vtep " + r
 		}
 	}
-	return true, ""
+	return true, "", "", ""
 }
 
 func tierPolIDs(lists ...[]*proto.TierInfo) []string {
@@ -505,6 +511,7 @@ type state struct {
 	upValid bool
 	// hypOK: upstream state was reference-closed at every flush so far
 	hypOK bool
+	reported map[string]bool
 
 	acg *acgState
 }
@@ -516,6 +523,7 @@ func (s *state) reset() {
 	s.up, s.dp = newWorld(), newWorld()
 	s.ops = nil
 	s.upValid, s.hypOK = true, true
+	s.reported = map[string]bool{}
 }
 
 func guard(f func()) (panicked bool) {
@@ -852,9 +860,24 @@ func (s *state) oracle(h *rt.H) {
 			h.OracleFail("wf-"+sig, "ill-formed message in Felix's output stream: "+desc, input(i))
 		}
 		if s.hypOK {
-			if ok, what := s.dp.closed(); !ok {
-				h.OracleFail("dangling-ref", fmt.Sprintf("after emitted message #%d (%s) the dataplane holds a dangling reference: %s", i, render(ev).class, what), input(i))
-				s.hypOK = false // report once per case
+			if ok, kind, from, what := s.dp.closedK(); !ok {
+				sig := "dangling-" + kind
+				if kind == "route-vtep" {
+					// is the dangling route about to be re-pointed by a RouteUpdate later in this same flush?
+					for _, later := range s.evs[i+1:] {
+						if ru, isRU := later.(*proto.RouteUpdate); isRU && ru.Dst == from {
+							sig = "dangling-route-vtep-until-route-update"
+							break
+						}
+					}
+				}
+				if !s.reported[sig] {
+					s.reported[sig] = true
+					h.OracleFail(sig, fmt.Sprintf("after emitted message #%d (%s) the dataplane holds a dangling reference: %s", i, render(ev).class, what), input(i))
+				}
+				if sig != "dangling-route-vtep-until-route-update" {
+					s.hypOK = false
+				}
 			}
 		}
 	}
